@@ -142,9 +142,53 @@ def coq_property(pid, extra_files=()):
 # --------------------------------------------------------------------------
 # extraction + oracle
 # --------------------------------------------------------------------------
-def build_oracle(force=False):
-    exe = os.path.join(OCAML, "oracle")
-    srcs = [os.path.join(COQ, "extract", "Extract.v"), os.path.join(OCAML, "oracle.ml")]
+def _names_files(extra_dir=None):
+    d = os.path.join(COQ, "extract")
+    fs = sorted(os.path.join(d, f) for f in os.listdir(d) if f.endswith(".names"))
+    if extra_dir and os.path.isdir(extra_dir):
+        fs += sorted(os.path.join(extra_dir, f) for f in os.listdir(extra_dir) if f.endswith(".names"))
+    return fs
+
+
+def gen_extract_v(path, extra_dir=None):
+    """Extract.v is generated from coq/extract/*.names: lines '!A B' name modules to
+    Require, every other line is a qualified constant to extract."""
+    mods, names = [], []
+    for f in _names_files(extra_dir):
+        for line in open(f):
+            line = line.strip()
+            if not line or line.startswith("#"):
+                continue
+            if line.startswith("!"):
+                for m in line[1:].split():
+                    if m not in mods:
+                        mods.append(m)
+            elif line not in names:
+                names.append(line)
+    with open(path, "w") as fh:
+        fh.write("(* GENERATED by tools/vlib.py from coq/extract/*.names. Extraction uses ExtrOcamlBasic only. *)\n")
+        fh.write("Require Extraction.\nRequire Import ExtrOcamlBasic.\n")
+        fh.write("From LibCSD Require Import %s.\n" % " ".join(mods))
+        fh.write("Extraction Language OCaml.\nSet Extraction Optimize.\n")
+        fh.write('Extraction "model.ml"\n  %s.\n' % "\n  ".join(names))
+
+
+def _ocaml_cmds(extra_dir=None):
+    cm = [os.path.join(OCAML, l.strip() + ".ml") for l in open(os.path.join(OCAML, "cmds.list")) if l.strip()]
+    if extra_dir and os.path.isdir(extra_dir):
+        cm += sorted(os.path.join(extra_dir, f) for f in os.listdir(extra_dir) if f.startswith("cmd_") and f.endswith(".ml"))
+    return cm
+
+
+def build_oracle(force=False, extra_dir=None):
+    """Extract the executable models and build the oracle.  With extra_dir (a work-in-progress
+    component: *.names, cmd_*.ml) everything is built in a private scratch directory."""
+    outdir = OCAML if not extra_dir else os.path.join(scratch(), "oracle-" + hashlib.sha1(extra_dir.encode()).hexdigest()[:6])
+    os.makedirs(outdir, exist_ok=True)
+    exe = os.path.join(outdir, "oracle")
+    cmds = _ocaml_cmds(extra_dir)
+    srcs = _names_files(extra_dir) + cmds + [os.path.join(OCAML, "obase.ml"), os.path.join(OCAML, "omain.ml"),
+                                              os.path.join(OCAML, "cmds.list")]
     for root, _, files in os.walk(os.path.join(COQ, "theories")):
         for f in files:
             if f.endswith("Defs.v") or f in ("Base.v", "Bytes.v", "Spec.v"):
@@ -155,21 +199,55 @@ def build_oracle(force=False):
     if not ok:
         # the models (Defs) may still build even if a proof file is broken
         ok2, log2 = coq_make(["-k"])
-    rc, o, e = sh("timeout 600 coqc -Q ../coq/theories LibCSD ../coq/extract/Extract.v", cwd=OCAML, timeout=630)
+    gen_extract_v(os.path.join(outdir, "Extract.v"), extra_dir)
+    rc, o, e = sh("timeout 600 coqc -Q %s LibCSD Extract.v" % os.path.join(COQ, "theories"), cwd=outdir, timeout=630)
     if rc != 0:
         return False, "extraction failed: " + (o + e)[-3000:]
-    rc, o, e = sh("ocamlfind ocamlopt -w -a model.mli model.ml oracle.ml -o oracle", cwd=OCAML, timeout=600)
+    if outdir != OCAML:
+        for f in ("obase.ml", "omain.ml"):
+            shutil.copy(os.path.join(OCAML, f), outdir)
+    local = []
+    for c in cmds:
+        if os.path.dirname(c) != outdir:
+            shutil.copy(c, outdir)
+        local.append(os.path.basename(c))
+    rc, o, e = sh("ocamlfind ocamlopt -O3 -w -a model.mli model.ml obase.ml %s omain.ml -o oracle 2>&1 || "
+                  "ocamlfind ocamlopt -w -a model.mli model.ml obase.ml %s omain.ml -o oracle" % (" ".join(local), " ".join(local)),
+                  cwd=outdir, timeout=600)
     if rc != 0:
         return False, "ocaml build failed: " + (o + e)[-3000:]
-    return True, "built"
+    return True, "built " + exe
+
+
+def oracle_exe(extra_dir=None):
+    if not extra_dir:
+        return os.path.join(OCAML, "oracle")
+    return os.path.join(scratch(), "oracle-" + hashlib.sha1(extra_dir.encode()).hexdigest()[:6], "oracle")
 
 
 # --------------------------------------------------------------------------
 # implementation build
 # --------------------------------------------------------------------------
-def build_driver(mode="asan", extra_defs=()):
+def gen_cmds_header(path, extra_dir=None):
+    """cmds_gen.h: #include of every command table (cxx/cmds.list + work-in-progress extras)
+    and the dispatch chain; a command table file cmd_x.inc defines `static bool cmd_x(State&, tokens)`."""
+    items = [(l.strip(), os.path.join(CXX, l.strip() + ".inc")) for l in open(os.path.join(CXX, "cmds.list")) if l.strip()]
+    if extra_dir and os.path.isdir(extra_dir):
+        for f in sorted(os.listdir(extra_dir)):
+            if f.startswith("cmd_") and f.endswith(".inc"):
+                items.append((f[:-4], os.path.join(extra_dir, f)))
+    with open(path, "w") as fh:
+        for n, p in items:
+            fh.write('#include "%s"\n' % p)
+        fh.write("static bool run_command_gen(State &st, const std::vector<std::string> &tk) {\n")
+        for n, p in items:
+            fh.write("  if (%s(st, tk)) return true;\n" % n)
+        fh.write("  return false;\n}\n")
+
+
+def build_driver(mode="asan", extra_defs=(), extra_dir=None):
     d = scratch()
-    out = os.path.join(d, mode + "-" + hashlib.sha1(" ".join(extra_defs).encode()).hexdigest()[:6])
+    out = os.path.join(d, mode + "-" + hashlib.sha1((" ".join(extra_defs) + str(extra_dir)).encode()).hexdigest()[:6])
     exe = os.path.join(out, "driver")
     if os.path.exists(exe):
         return exe, ""
@@ -186,8 +264,9 @@ def build_driver(mode="asan", extra_defs=()):
         if extra_defs:
             os.environ.pop("VERIF_NO_CACHE", None)
             buildlib.COMMON[:] = [x for x in buildlib.COMMON if not x.startswith("-DLIBCSD_VERIF_")]
+    gen_cmds_header(os.path.join(out, "cmds_gen.h"), extra_dir)
     flags = buildlib.COMMON + list(extra_defs) + buildlib.FLAGS[mode]
-    cmd = ["g++"] + flags + ["-I", REPO, "-I", os.path.join(REPO, "libcds/includes"), "-I", CXX,
+    cmd = ["g++"] + flags + ["-I", REPO, "-I", os.path.join(REPO, "libcds/includes"), "-I", CXX, "-I", out,
                              os.path.join(CXX, "driver.cpp"), lib, "-lpthread", "-o", exe]
     r = subprocess.run(cmd, capture_output=True, text=True)
     if r.returncode != 0:
@@ -252,7 +331,7 @@ def run_cases(exe, cases, timeout_case=20, shards=16, env=None, tag="impl"):
         e.update(ASAN_ENV)
         if env:
             e.update(env)
-        cmd = [exe, path] + ([str(timeout_case)] if tag == "impl" else [])
+        cmd = [exe, path] + ([str(timeout_case)] if tag.startswith("impl") else [])
         procs.append((path, subprocess.Popen(cmd, stdout=subprocess.PIPE, stderr=subprocess.PIPE, env=e)))
     out = {}
     for path, p in procs:
